@@ -56,6 +56,19 @@ def _wrap(c):
     elif dims == "yxb":
         data = np.stack([data, data + 100], axis=-1)
     xx = wrap_xr(data, gbox, **kw)
+    nm = c["base"]["name"]
+    if nm.endswith("_cf"):
+        sr = xx.coords["spatial_ref"]
+        sr.attrs["crs_wkt"] = sr.attrs.pop("spatial_ref")                 # CF spelling of the same CRS coordinate
+    elif nm.endswith("_attrs") and c["cont"]["container"] == "DataArray" and c["sx"]["n"] > 1 and c["sy"]["n"] > 1:
+        # (a Dataset is not recovered from its variables' attributes, and a single row / column needs the CRS coordinate's GeoTransform)
+        enc = dict(xx.encoding)
+        xx = xx.drop_vars("spatial_ref")
+        xx.encoding = {k: v for k, v in enc.items() if k != "grid_mapping"}
+        xx.attrs["crs"] = crs                                             # no CRS coordinate: the CRS sits in the attributes
+    elif nm.endswith("_two_crs_coords"):
+        xx = xx.assign_coords(crs2=xx.coords["spatial_ref"].copy())
+        xx.encoding.pop("grid_mapping", None)                             # both coordinates are candidates (same CRS)
     if c["cont"]["backend"] == "dask":
         xx = xx.chunk({d: 2 for d in xx.dims})
     if c["cont"]["container"] == "Dataset":
@@ -64,6 +77,16 @@ def _wrap(c):
 
 
 def run_hist(c):
+    import xarray as xr
+
+    if c["base"]["name"].endswith("_attrs"):
+        # a CRS kept in the attributes only survives arithmetic when xarray is told to keep attributes
+        with xr.set_options(keep_attrs=True):
+            return _run_hist(c)
+    return _run_hist(c)
+
+
+def _run_hist(c):
     import xarray as xr
 
     ev = {"kind": "hist", "c": c, "outcome": "ok", "has_geobox": False, "crs_ok": True, "shape": [0, 0], "roundtrip_eq": True, "centres": [], "corners": [], "labels": []}
